@@ -27,6 +27,41 @@ NOT_APPLICABLE = {p: 'check under construction in this session; not claimed unti
                   for p in ['C%02d' % i for i in range(1, 21)]}
 
 PROPS = {
+    'C04': dict(
+        claimed=True,
+        level='exploration',
+        level_text="Generated inbound exactly-once histories with the broker model as sender (retransmission with DUP after reconnect, "
+                   "PUBREL repeats, identifier reuse after completed cycles, messages beyond the read buffer), acknowledgements "
+                   "lost after the write, write faults on the acknowledgement, marker Save/Load/Delete faults, and up to two "
+                   "stop/adopt generations on the same Persistence with the broker session captured at the stop. Invariants over "
+                   "the event log (no second return while the marker exists; PUBREC for every duplicate and PUBCOMP for every "
+                   "PUBREL before the read routine waits again) plus a drain in which the sender model must complete every cycle.",
+        technique='stateful property-based testing (rapid) with the reference broker as sender; event-log invariants and bounded-liveness drain',
+        rule="actions {brokerSend (level 2 mostly; payload 0/1/20/beyond the read buffer; low and high identifiers, reuse after "
+             "completion), appStep, hold, releaseOwed, break, loseTail, ackWriteFault, concurrent outbound requests, "
+             "markerFault(S|L|D), restart at one of the last 4 stop points (<= 2)}; read buffer from {131072, 256, 1024}. The "
+             "documented BUG combination (marker Save failed, then stop) is excluded by construction and counted. "
+             "Non-trivial: a cycle saw a broker retransmission, or a restart happened.",
+        assumptions=ASSUME_SIM,
+        quick=dict(engines=[rapid('^TestC04', 1600, steps=40)]),
+        thorough=dict(engines=[rapid('^TestC04', 40000, shards=14, steps=70, timeout=1500)]),
+    ),
+    'C07': dict(
+        claimed=True,
+        level='exploration',
+        level_text="Generated inbound histories at all three levels in which the harness decides when the application calls "
+                   "ReadSlices again (so 'still holds the slices' is an observable state), with connection loss, write faults on "
+                   "the acknowledgement, lost acknowledgements and concurrent outbound requests in between. Timing of every "
+                   "PUBACK/PUBREC relative to the application's calls, and the multiset of acknowledgements versus returns, are "
+                   "checked on the totally ordered event log.",
+        technique='stateful property-based testing (rapid) with harness-controlled ReadSlices steps; event-log invariants',
+        rule="actions {brokerSend (levels 0/1/2; payload classes incl. beyond the read buffer), appStep, hold, releaseOwed, break, "
+             "loseTail, ackWriteFault, concurrent pub0/sub/pub1}. Non-trivial: the application held a message while other "
+             "actions ran, or a connection loss happened in the history.",
+        assumptions=ASSUME_SIM,
+        quick=dict(engines=[rapid('^TestC07', 1600, steps=40)]),
+        thorough=dict(engines=[rapid('^TestC07', 40000, shards=14, steps=70, timeout=1500)]),
+    ),
     'C06': dict(
         claimed=True,
         level='exploration',
